@@ -323,4 +323,143 @@ theorem removed_stays_absent (c : Cfg) (d0 : Dir) (u : Bytes) (hv : validName u 
     simp only [run, List.foldl]
     exact ih (fun o ho => hh o (by simp [ho])) (step c d op) (absent_step c d u op h0 (hh op (by simp)))
 
+
+/-! ### The full statement: the verdict is a function of the last acknowledged write
+
+`lastWrite` replays a history and remembers, for one user, the most recent operation that was
+ACKNOWLEDGED (succeeded in the state it was applied to): an add or update records its password,
+salt, time; a removal forgets; failing operations, set-admin and operations on other users
+change nothing. The theorem says that after ANY history authentication of `u` answers exactly
+according to that record. -/
+
+structure Written where
+  pw : Bytes
+  salt : Bytes
+  now : Int
+  deriving Repr
+
+def lwStep (c : Cfg) (d : Dir) (u : Bytes) (lw : Option Written) : Op → Option Written
+  | .add v pw adm now salt =>
+    if v = u then (match add c d v pw adm now salt with | .ok _ => some ⟨pw, salt, now⟩ | .error _ => lw) else lw
+  | .update v pw now salt =>
+    if v = u then (match update c d v pw now salt with | .ok _ => some ⟨pw, salt, now⟩ | .error _ => lw) else lw
+  | .setAdmin _ _ => lw
+  | .remove v => if v = u ∧ validName v = true then none else lw
+
+/-- The pair (directory, last acknowledged write of `u`) along a history. -/
+def runLW (c : Cfg) (u : Bytes) : Dir × Option Written → List Op → Dir × Option Written
+  | s, [] => s
+  | (d, lw), op :: rest => runLW c u (step c d op, lwStep c d u lw op) rest
+
+theorem runLW_fst (c : Cfg) (u : Bytes) (h : List Op) : ∀ d lw, (runLW c u (d, lw) h).1 = run c d h := by
+  induction h with
+  | nil => intro d lw; rfl
+  | cons op rest ih => intro d lw; simp only [runLW, run, List.foldl_cons]; exact ih _ _
+
+def opTimeOk : Op → Prop
+  | .add _ _ _ now _ => timeOk now
+  | .update _ _ now _ => timeOk now
+  | _ => True
+
+/-- The invariant: what the record says is what the store does. -/
+def Agrees (c : Cfg) (d : Dir) (u : Bytes) : Option Written → Prop
+  | none => Absent d u
+  | some w => ∃ ps, c.lookup c.default = some ps ∧ Tracks c d u ps w.salt w.pw w.now
+
+theorem agrees_step (c : Cfg) (hc : CfgOk c) (d : Dir) (u : Bytes) (lw : Option Written) (op : Op)
+    (ht : opTimeOk op) (h : Agrees c d u lw) : Agrees c (step c d op) u (lwStep c d u lw op) := by
+  by_cases hu : op.user = u
+  · cases op with
+    | add v pw adm now salt =>
+      simp only [Op.user] at hu; subst hu
+      simp only [lwStep, if_true, step]
+      cases hadd : add c d v pw adm now salt with
+      | error e => exact h
+      | ok d' =>
+        obtain ⟨ps, hps, hauth⟩ := add_then_auth hadd hc ht
+        exact ⟨ps, hps, adm, hauth⟩
+    | update v pw now salt =>
+      simp only [Op.user] at hu; subst hu
+      simp only [lwStep, if_true, step]
+      cases hup : update c d v pw now salt with
+      | error e => exact h
+      | ok d' =>
+        obtain ⟨ps, a, hps, _, hauth⟩ := update_then_auth hup hc ht
+        exact ⟨ps, hps, a, hauth⟩
+    | setAdmin v st =>
+      simp only [Op.user] at hu; subst hu
+      simp only [lwStep]
+      cases lw with
+      | none => exact absent_step c d v _ h (fun _ _ _ _ e => by cases e)
+      | some w =>
+        obtain ⟨ps, hps, htr⟩ := h
+        exact ⟨ps, hps, tracks_step c d v ps w.salt w.pw w.now _ htr (Or.inr (Or.inl ⟨st, rfl⟩))⟩
+    | remove v =>
+      simp only [Op.user] at hu; subst hu
+      by_cases hv : validName v = true
+      · simp only [lwStep, hv, and_self, if_true]
+        simp only [Agrees, step, remove, hv, Bool.not_true, Bool.false_eq_true, if_false]
+        exact ⟨by rw [get_del_ne _ (append_adminExt_ne_userExt v v), get_del_self], by rw [get_del_self]⟩
+      · simp only [lwStep, hv, and_false, if_false, step, remove, Bool.not_eq_true] at *
+        simp only [hv, Bool.not_false, if_true]
+        exact h
+  · have hl : lwStep c d u lw op = lw := by
+      cases op with
+      | add v _ _ _ _ => simp only [Op.user] at hu; simp [lwStep, hu]
+      | update v _ _ _ => simp only [Op.user] at hu; simp [lwStep, hu]
+      | setAdmin _ _ => rfl
+      | remove v => simp only [Op.user] at hu; simp [lwStep, hu]
+    rw [hl]
+    cases lw with
+    | none => exact absent_step c d u op h (fun pw adm now salt e => by subst e; exact hu rfl)
+    | some w =>
+      obtain ⟨ps, hps, htr⟩ := h
+      exact ⟨ps, hps, tracks_step c d u ps w.salt w.pw w.now op htr (Or.inl hu)⟩
+
+theorem agrees_run (c : Cfg) (hc : CfgOk c) (u : Bytes) (h : List Op) (hts : ∀ op ∈ h, opTimeOk op) :
+    ∀ d lw, Agrees c d u lw → Agrees c (runLW c u (d, lw) h).1 u (runLW c u (d, lw) h).2 := by
+  induction h with
+  | nil => intro d lw ha; exact ha
+  | cons op rest ih =>
+    intro d lw ha
+    simp only [runLW]
+    exact ih (fun o ho => hts o (by simp [ho])) _ _ (agrees_step c hc d u lw op (hts op (by simp)) ha)
+
+/-- **C01, at full strength.** Start from any directory in which `u` has no file. After ANY
+    finite history of successful and failed add / update / set-admin / remove operations on any
+    users, with `lastWrite` the most recent acknowledged add or update of `u` that no later
+    acknowledged removal erased:
+    * if there is none, no password authenticates `u`;
+    * otherwise `p` authenticates exactly when it has the digest of the password of that write
+      (under that write's salt and the default parameter set), and the reported time is that
+      write's time. -/
+theorem verdict_is_function_of_last_write (c : Cfg) (hc : CfgOk c) (d0 : Dir) (u : Bytes)
+    (h0 : Absent d0 u) (h : List Op) (hts : ∀ op ∈ h, opTimeOk op) :
+    match (runLW c u (d0, none) h).2 with
+    | none => ∀ p, ∃ e, authenticate c (run c d0 h) u p = .error e
+    | some w => ∃ ps a, c.lookup c.default = some ps ∧ ∀ p, authenticate c (run c d0 h) u p =
+        if ps.digest w.salt p = ps.digest w.salt w.pw then .ok ⟨a, false, w.now⟩ else .error .wrongPassword := by
+  have hag := agrees_run c hc u h hts d0 none h0
+  rw [runLW_fst] at hag
+  cases hlw : (runLW c u (d0, none) h).2 with
+  | none =>
+    rw [hlw] at hag
+    exact fun p => absent_auth_fails c hag p
+  | some w =>
+    rw [hlw] at hag
+    obtain ⟨ps, hps, a, ha⟩ := hag
+    exact ⟨ps, a, hps, ha⟩
+
+/- Non-vacuity: add, update, a second (failing) add, operations on another user, set-admin; then a removal. -/
+section NonVacuity
+def psN : ParamSet := ⟨[120], fun salt pw => salt ++ pw⟩
+def cN : Cfg := ⟨1, [(1, psN)]⟩
+def hN : List Op :=
+  [.add [97] [1] false 5 [9], .update [97] [2] 6 [8], .add [97] [3] true 7 [7], .remove [98], .add [98] [4] false 8 [6], .setAdmin [97] true]
+example : (runLW cN [97] ([], none) hN).2.map (·.pw) = some [2] := by decide +kernel
+example : (runLW cN [97] ([], none) (hN ++ [.remove [97]])).2.map (·.pw) = none := by decide +kernel
+example : (authenticate cN (run cN [] hN) [97] [2]).toOption.map (·.isAdmin) = some true := by decide +kernel
+example : (authenticate cN (run cN [] hN) [97] [1]).toOption = none := by decide +kernel
+end NonVacuity
+
 end Whawty.Store.C01
